@@ -108,8 +108,7 @@ impl<T: RealNumber, D: Distance<Vec<T>, T>> DBSCAN<T, D> {
         }
 //@loop 1
             invariant
-                g == problem(x, parameters) || (g.eps == parameters.eps && g.ms == parameters.min_samples),
-                g.eps == parameters.eps, g.ms == parameters.min_samples as int,
+                g.eps == parameters.eps, g.ms == parameters.min_samples as int, g.ms >= 1,
                 n == g.n(), y@.len() == n, n <= i16::MAX,
                 algo_for(g, &algo),
                 queued == -2, outlier == -1, undefined == -3,
@@ -123,7 +122,7 @@ impl<T: RealNumber, D: Distance<Vec<T>, T>> DBSCAN<T, D> {
                 assert(i == VERUS_ghost_iter.index@ && e@ == g.rows[i as int]);
                 if y@[i as int] != -3 { g.lemma_skip(y@, i as int, k as int); }
             }
-//@before if neighbors.len() < parameters.min_samples {
+//@after let mut neighbors = algo.find_radius
                 let ghost nb0 = neighbors@;
                 proof {
                     lemma_answer(g, &algo, i as int, e@, nb0);
@@ -132,7 +131,7 @@ impl<T: RealNumber, D: Distance<Vec<T>, T>> DBSCAN<T, D> {
                 }
 //@loop 2
                         invariant
-                            g.eps == parameters.eps, g.ms == parameters.min_samples as int,
+                            g.eps == parameters.eps, g.ms == parameters.min_samples as int, g.ms >= 1,
                             n == g.n(), y@.len() == n, i < n, algo_for(g, &algo),
                             queued == -2, outlier == -1, undefined == -3,
                             neighbors@ == nb0, refs_ok(g, nb0),
@@ -148,11 +147,13 @@ impl<T: RealNumber, D: Distance<Vec<T>, T>> DBSCAN<T, D> {
                     let ghost mut pl: Seq<int> = idxs(nb0);
 //@loop 3
                         invariant
-                            g.eps == parameters.eps, g.ms == parameters.min_samples as int,
+                            g.eps == parameters.eps, g.ms == parameters.min_samples as int, g.ms >= 1,
                             n == g.n(), y@.len() == n, i < n, algo_for(g, &algo),
                             queued == -2, outlier == -1, undefined == -3,
                             refs_ok(g, neighbors@),
                             g.inv_exp(y@, idxs(neighbors@), i as int, k as int, p, pl, pl.len() as int), //# inv-cluster-expansion
+                            // once the stack is empty, cluster k is complete
+                            neighbors@.len() == 0 ==> g.inv_outer(y@, i as int + 1, k as int + 1), //# inv-empty-stack-means-cluster-complete
                         decreases unlabelled(y@, n as int), neighbors.len()
 //@before let neighbor = neighbors.pop().unwrap();
                         let ghost y_pre = y@;
@@ -171,21 +172,26 @@ impl<T: RealNumber, D: Distance<Vec<T>, T>> DBSCAN<T, D> {
                             assert(st1 =~= st_pre.drop_last());
                             assert(index == st_pre.last());
                             assert(0 <= st_pre[st_pre.len() - 1] < n);
-                            if y_pre[index as int] >= 0 { g.lemma_pop_labelled(y_pre, st_pre, i as int, k as int); }
+                            if y_pre[index as int] >= 0 {
+                                g.lemma_pop_labelled(y_pre, st_pre, i as int, k as int);
+                                if st1.len() == 0 { g.lemma_finish(y_pre, i as int, k as int); }
+                            }
                             if y_pre[index as int] == -1 {
                                 g.lemma_pop_join(y_pre, st_pre, i as int, k as int);
                                 lemma_unl_update(y_pre, index as int, k, n as int);
                                 lemma_unl_bound(y_pre.update(index as int, k), n as int);
+                                if st1.len() == 0 { g.lemma_finish(y_pre.update(index as int, k), i as int, k as int); }
                             }
                         }
-//@before if y[index] == undefined || y[index] == queued {
-                        let ghost y_mid = y@;
-//@after y[index] = k; ##2
+//@before let secondary_neighbors =
                             let ghost y_k = y@;
-                            proof { lemma_unl_update(y_mid, index as int, k, n as int); lemma_unl_bound(y_k, n as int); }
-//@before if secondary_neighbors.len() >= parameters.min_samples {
                             proof {
-                                assert(y_mid == y_pre);
+                                assert(y_k == y_pre.update(index as int, k));
+                                lemma_unl_update(y_pre, index as int, k, n as int);
+                                lemma_unl_bound(y_k, n as int);
+                            }
+//@after algo.find_radius(neighbor.2, parameters.eps)?;
+                            proof {
                                 assert((*neighbor.2)@ == g.rows[index as int]);
                                 lemma_answer(g, &algo, index as int, (*neighbor.2)@, secondary_neighbors@);
                                 if secondary_neighbors@.len() >= g.ms {
@@ -194,34 +200,41 @@ impl<T: RealNumber, D: Distance<Vec<T>, T>> DBSCAN<T, D> {
                                     pl = idxs(secondary_neighbors@);
                                 } else {
                                     g.lemma_pop_join(y_pre, st_pre, i as int, k as int);
+                                    if st1.len() == 0 { g.lemma_finish(y_k, i as int, k as int); }
                                 }
                             }
 //@loop 4
                                     invariant
-                                        g.eps == parameters.eps, g.ms == parameters.min_samples as int,
+                                        g.eps == parameters.eps, g.ms == parameters.min_samples as int, g.ms >= 1,
                                         n == g.n(), y@.len() == n, i < n, algo_for(g, &algo),
                                         queued == -2, outlier == -1, undefined == -3,
                                         refs_ok(g, neighbors@), refs_ok(g, secondary_neighbors@),
                                         p == index, pl == idxs(secondary_neighbors@),
                                         unlabelled(y@, n as int) == unlabelled(y_k, n as int),
                                         g.inv_exp(y@, idxs(neighbors@), i as int, k as int, p, pl, j as int), //# inv-neighbours-of-new-core-point-marked
+                                        g.ms >= 1, secondary_neighbors@.len() >= g.ms,
+                                        (j == secondary_neighbors@.len() && neighbors@.len() == 0) ==> g.inv_outer(y@, i as int + 1, k as int + 1),
 //@before let label = y[secondary_neighbors[j].0];
                                     let ghost y_b = y@;
                                     let ghost st_b = idxs(neighbors@);
                                     let ghost jj = secondary_neighbors@[j as int].0 as int;
                                     proof {
                                         assert(pl[j as int] == jj);
-                                        g.lemma_step(y_b, st_b, i as int, k as int, p, pl, j as int, y_b[jj] == -3 || y_b[jj] == -1);
+                                        // not pushed (already clustered, or queued: then it is on the stack)
+                                        if !(y_b[jj] == -3 || y_b[jj] == -1) {
+                                            g.lemma_step(y_b, st_b, i as int, k as int, p, pl, j as int, false);
+                                            if j + 1 == pl.len() && st_b.len() == 0 {
+                                                g.lemma_done_pending(y_b, st_b, i as int, k as int, p, pl);
+                                                g.lemma_finish(y_b, i as int, k as int);
+                                            }
+                                        }
                                         if y_b[jj] == -3 { lemma_unl_update(y_b, jj, -2i16, n as int); }
                                     }
 //@after neighbors.push(secondary_neighbors[j]);
-                                        proof { assert(idxs(neighbors@) =~= st_b.push(jj)); }
-//@before k += 1;
-                    proof {
-                        g.lemma_done_pending(y@, idxs(neighbors@), i as int, k as int, p, pl);
-                        assert(idxs(neighbors@) =~= Seq::<int>::empty());
-                        g.lemma_finish(y@, i as int, k as int);
-                    }
+                                        proof {
+                                            assert(idxs(neighbors@) =~= st_b.push(jj));
+                                            g.lemma_step(y_b, st_b, i as int, k as int, p, pl, j as int, true);
+                                        }
 //@before Ok(DBSCAN {
         proof {
             g.lemma_final(y@, k as int);
